@@ -245,6 +245,24 @@ def job_series(job):
                 ex = ('skipped', None) if heavy else _safe(lambda: x.outersin() * x.outercos().inv())
                 if rt[0] != ex[0] or (rt[0] == 'value' and not req(O.nz(fr.mv_to_ref(rt[1])), O.nz(fr.mv_to_ref(ex[1])))):
                     fail({'config': cfg, 'what': 'outertan != outersin * inverse(outercos)', 'x': showmv(ks, x.values())})
+            # ---- outertan of operands whose even part is not a scalar: mixed vector + bivector (d >= 3), a non-simple bivector on
+            # disjoint generator pairs (d >= 4): outercos = 1 + N with N ^ N == 0 but in general N * N != 0
+            directed = []
+            if d >= 3:
+                v2 = rng.sample(list(alg.indices_for_grades[(1,)]), 2)
+                directed.append(tuple(v2) + (rng.choice(list(alg.indices_for_grades[(2,)])),))
+            if d >= 4:
+                directed.append((3, 12))
+                directed.append((5, 10, rng.choice([1, 2, 4, 8])))
+            for dk in directed[:2] if _ else directed:
+                xd = mv_from(alg, dk, frac_vals(rng, dk))
+                out['evaluations'] += 1
+                with warnings.catch_warnings():
+                    warnings.simplefilter('ignore')
+                    rt = _safe(lambda: xd.outertan())
+                    ex = _safe(lambda: xd.outersin() * xd.outercos().inv())
+                if rt[0] != ex[0] or (rt[0] == 'value' and not req(O.nz(fr.mv_to_ref(rt[1])), O.nz(fr.mv_to_ref(ex[1])))):
+                    fail({'config': cfg, 'what': 'outertan != outersin * inverse(outercos)', 'x': showmv(dk, xd.values()), 'got': str(rt)[:200], 'expected': str(ex)[:200]})
             # ---- exp of a simple element (squares to a scalar): blade of every sign of square, numeric and symbolic
             K = rng.choice([k for k in range(1, 2 ** d)])
             t = rng.choice([0.3, 1.1, -0.7, 2.0])
